@@ -46,17 +46,7 @@ TRUSTED_EXTRA = ["C04: the reference interpreter harness/c04_gen.py (Reference) 
 
 
 def ask_many(ctx, lines):
-    """the driver binary is relinked by concurrent builds of other properties: retry a few times"""
-    import time
-    last = None
-    for attempt in range(5):
-        try:
-            return ctx.driver().ask_many(lines)
-        except Exception as e:      # noqa: BLE001
-            last = e
-            ctx._drv = None
-            time.sleep(3)
-    raise last
+    return ctx.driver().ask_many(lines)
 
 
 PER_SITE = 3
@@ -166,9 +156,17 @@ def compare_structure(ctx, stream, case, tmpl, full):
             ctx.branch("decl:" + k)
         impl = {"decls": c.decls, "loop": c.loop, "mlocals": c.mlocals}
         model = {"decls": m["decls"], "loop": m["loop"], "mlocals": m["mlocals"]}
-        if impl != model:
+        if impl != model:          # the SETS of declarations (order-insensitive)
             ctx.disagree(stream, dict(case.key(), function=str(p)), model, impl)
             ok = False
+        elif list(c.decls) != m["order"] or (c.mlocals_order or None) != m["mlocals_order"]:
+            # the ORDER (sorted since the hash-seed repair): reported separately from the sets
+            ctx.branch("decl-order:differs")
+            ctx.disagree(stream, dict(case.key(), function=str(p), what="declaration order"),
+                         {"order": m["order"], "mlocals": m["mlocals_order"]}, {"order": list(c.decls), "mlocals": c.mlocals_order})
+            ok = False
+        else:
+            ctx.branch("decl-order:same")
         if c.odd or c.dups or c.after_writer:
             ctx.disagree(stream, dict(case.key(), function=str(p)), "prelude of fetches / stubs / inline defs, each name once, "
                          "before __M_writer", {"not understood": c.odd, "twice": c.dups, "after writer": c.after_writer})
@@ -630,6 +628,11 @@ def reserved_names(ctx):
                 "render_context-kwargs": lambda: t.render_context(Context(util.FastEncodingBuffer()), **{name: 1}),
             }
             for ename, fn in entries.items():
+                if ename == "render_context-kwargs" and name == "context":
+                    # `render_context(self, context, *args, **kwargs)`: Python itself refuses a second `context`
+                    # (TypeError) - the name cannot reach the keyword arguments at all
+                    ctx.branch("entry:render_context-kwargs:context-is-a-parameter")
+                    continue
                 exc = None
                 try:
                     fn()
@@ -641,8 +644,8 @@ def reserved_names(ctx):
                 so["cases"] += 1
                 ctx.branch("entry:%s:%s" % (ename, "conflict" if got else "other"))
                 if reserved_now and not got:
-                    site = ("loop-enabled-by-page-not-reserved" if el == "page" else
-                            "render_context-kwargs-not-checked" if ename == "render_context-kwargs" else "reserved-name-accepted-at:" + ename)
+                    site = ("render_context-kwargs-not-checked" if ename == "render_context-kwargs" and el != "page" else
+                            "loop-enabled-by-page-not-reserved" if el == "page" else "reserved-name-accepted-at:" + ename)
                     violation(ctx, site, {"input": name, "entry": ename, "enable_loop": str(el)},
                                   "expected NameConflictError, got %s" % (type(exc).__name__ if exc else "a rendering"), "oracle.render_entries")
                 if not reserved_now and got:
